@@ -128,6 +128,9 @@ type Session struct {
 	Faults  []core.Fault
 	// Cancel is invoked by "cancel" faults.
 	Cancel func()
+	// HonourCtx makes Querier() and Select fail with the context's error once the
+	// context is done, like storages that check their context do.
+	HonourCtx bool
 
 	mu       sync.Mutex
 	counts   map[string]int
@@ -297,6 +300,9 @@ func (s *Session) Querier(ctx context.Context, mint, maxt int64) (storage.Querie
 	if s.hit("querier", ctx) == actError {
 		return nil, ErrInjected
 	}
+	if s.HonourCtx && ctx != nil && ctx.Err() != nil {
+		return nil, ctx.Err()
+	}
 	q := &querier{s: s, ctx: ctx, mint: mint, maxt: maxt}
 	s.mu.Lock()
 	s.queriers = append(s.queriers, q)
@@ -339,6 +345,9 @@ func (q *querier) Select(sortSeries bool, hints *storage.SelectHints, matchers .
 
 	if s.hit("select", q.ctx) == actError {
 		return &seriesSet{q: q, err: ErrInjected}
+	}
+	if s.HonourCtx && q.ctx != nil && q.ctx.Err() != nil {
+		return &seriesSet{q: q, err: q.ctx.Err()}
 	}
 
 	s.st.mu.RLock()
